@@ -16,21 +16,20 @@ for patch in seeds:
         subprocess.check_call(['git', '-C', '/repo', 'apply', patch])
         hits = {}
         errors = []
-        for p in sorted(props):
-            out = subprocess.run([V + '/check', p, '--tier', 'quick'], capture_output=True, text=True)
-            for line in out.stdout.splitlines():
-                m = re.match(r'^(\S+?):(\d+): \[(C\d+)/([^\]]+)\] in (\S+):', line)
-                if m:
-                    hits.setdefault(p, set()).add('%s@%s' % (m.group(4), m.group(5)))
-                if line.startswith('ANALYSIS-ERROR'):
-                    errors.append(line[:160])
+        out = subprocess.run([V + '/check', 'all', '--tier', 'quick'], capture_output=True, text=True)
+        for line in out.stdout.splitlines():
+            m = re.match(r'^(\S+?):(\d+): \[(C\d+)/([^\]]+)\] in (\S+):', line)
+            if m:
+                hits.setdefault(m.group(3), set()).add('%s@%s' % (m.group(4), m.group(5)))
+            if line.startswith('ANALYSIS-ERROR'):
+                errors.append(line[:260])
     finally:
         subprocess.check_call(['git', '-C', '/repo', 'checkout', '--', '.'])
     meta['detected_by'] = {p: sorted(v) for p, v in hits.items()}
     meta['analysis_errors'] = errors
     meta['detected'] = bool(hits)
     json.dump(meta, open(d + '/meta.json', 'w'), indent=1)
-    rows.append((sid, meta['property'], 'DETECTED' if hits else 'missed', '; '.join('%s:%s' % (p, ','.join(sorted(v))[:80]) for p, v in hits.items()), errors))
+    rows.append((sid, meta['property'], 'DETECTED' if hits else ('undecided' if errors else 'missed'), '; '.join('%s:%s' % (p, ','.join(sorted(v))[:80]) for p, v in hits.items()), errors))
 for r in rows:
     print('%-8s %-4s %-9s %s %s' % (r[0], r[1], r[2], r[3], ('  ERR ' + str(r[4])) if r[4] else ''))
-print(sum(1 for r in rows if r[2] == 'DETECTED'), 'of', len(rows), 'detected')
+print(sum(1 for r in rows if r[2] == 'DETECTED'), 'of', len(rows), 'detected;', sum(1 for r in rows if r[2] == 'undecided'), 'undecided (exit 2);', sum(1 for r in rows if r[2] == 'missed'), 'missed')
